@@ -17,7 +17,7 @@ pub mod fixture;
 pub mod tree;
 
 pub use catalogue::{catalogue, find_spec};
-pub use fixture::{Engine, Fixture, FixtureSpec, Forge, FriSpec, FvpSpec, Packed, ParamOverride, Stats, Verdict, last_stage, set_stage};
+pub use fixture::{Engine, Fixture, FixtureSpec, Forge, FriSpec, FvpSpec, Packed, ParamOverride, Stats, Verdict, last_build_sig, last_stage, set_stage};
 pub use tree::{
     Leaf, LeafKind, Path, Seg, StructFault, ValueFault, apply_struct_fault, class_string, faulted_value, leaves,
     parse_path, path_string, skeleton, struct_faults, with_leaf,
